@@ -930,6 +930,8 @@ class BlockNode(AstNode, NamespaceMixin):
         self.scope_file = parent.scope_file
         self.symbols = parent.symbols
         self.cxx_header = parent.cxx_header
+        # Declarations in the block are guarded like those of its class.
+        self.cpp_if = getattr(parent, "cpp_if", None)
 
         self.options = util.Scope(parent=parent.options)
         if options:
